@@ -69,5 +69,8 @@ func init() {
 }
 
 func init() {
+	unit.C02Extra = func(run *harness.Run) ([]harness.Finding, map[string]interface{}, []string) {
+		return rtPart(run, "validate", 32, 1200, map[string]int{"C02 concurrent validations judged": 5000, "C02 validations that started while another one was running": 1000})
+	}
 	registry["C02"] = unit.CheckC02
 }
